@@ -27,7 +27,7 @@ func init() {
 			"points whose only tag is their geometry tag are optional in search results"},
 		Quick: 320, Thorough: 8000,
 		Required: []string{"base_basic", "base_mutable-overlay", "base_snapshot", "base_compact", "plain_then_searchable", "searchable_then_plain",
-			"remove_modified_only", "overwrite_then_remove", "readd_feature", "ops"},
+			"remove_modified_only", "overwrite_then_remove", "readd_feature", "moved_point", "ops"},
 		Run: func(c *core.Ctx) {
 			r := c.R
 			baseKind := "basic"
@@ -46,6 +46,7 @@ func init() {
 			}
 			g := wm.NewGen(r.Fork(), o)
 			specs := g.World()
+			specs = append(specs, g.AddMovable()...) // the history also moves points under a path and under an area
 			model := wm.ModelOf(specs)
 			var script []string
 			var mo *ingest.MutableOverlayWorld
@@ -124,9 +125,24 @@ func init() {
 			overwritten := map[string]int{}       // id+key -> number of AddTag
 			added := map[b6.FeatureID]int{}
 			twice := false
-			n := r.Range(1, 30)
+			n := r.Range(4, 40)
+			var pending []wm.Op // directed sequences mixed into the random history
 			for i := 0; i < n; i++ {
-				op := g.NextOp(model)
+				var op wm.Op
+				if len(pending) > 0 {
+					op, pending = pending[0], pending[1:]
+				} else if r.Chance(0.04) {
+					// overwrite a key twice on one feature, then remove it
+					id := core.Pick(r, model.IDs())
+					key := core.Pick(r, wm.AllKeys)
+					op = wm.Op{Kind: "addtag", ID: id, Tag: b6.Tag{Key: key, Value: b6.NewStringExpression(core.Pick(r, wm.TagValues))}}
+					pending = []wm.Op{
+						{Kind: "addtag", ID: id, Tag: b6.Tag{Key: key, Value: b6.NewStringExpression(core.Pick(r, wm.TagValues) + "2")}},
+						{Kind: "removetag", ID: id, Key: key},
+					}
+				} else {
+					op = g.NextOp(model)
+				}
 				if baseKind == "compact" && op.Kind == "add" && op.Spec.ID.Type == b6.FeatureTypeCollection {
 					continue
 				}
@@ -167,6 +183,11 @@ func init() {
 						}
 						delete(modifiedOnly, k)
 						overwritten[k] = 0
+					}
+				}
+				if op.Kind == "add" && op.Spec.ID.Type == b6.FeatureTypePoint {
+					if old, ok := model.F[op.Spec.ID]; ok && old.LL != op.Spec.LL {
+						c.Count("moved_point")
 					}
 				}
 				if op.Kind == "add" {
